@@ -6,6 +6,7 @@ import SlugModel.Builder
 import SlugModel.Remote
 import SlugModel.Pack
 import SlugModel.Bundle
+import SlugModel.Sanitise
 /-!
 Line-protocol driver: one request per line on stdin, one answer per line on stdout.
 Fields are separated by single spaces; every string is `x<hex of UTF-8 bytes>`.
@@ -469,6 +470,31 @@ def handleBundle (toks : List String) : String :=
     | _, _, _ => "not-utf8"
   | _ => "bad-op"
 
+-- ---------- sanitise ----------
+
+def zeroTimes (fs : FS) : FS :=
+  fs.map fun (p, n) =>
+    match n with
+    | .dir perm _ => (p, .dir perm 0)
+    | .file perm _ c => (p, .file perm 0 c)
+    | other => (p, other)
+
+/-- `sanitise <work> <final> <fs>` → `<class> <fsdump without times>` -/
+def handleSanitise (toks : List String) : String :=
+  match toks with
+  | [work, final, fsenc] =>
+    match decStr work, decStr final, decFS fsenc with
+    | some work, some final, some fs =>
+      let (fs', r) := ensurePrepared fs work final
+      let cls := match r with
+        | .ok _ => "ok"
+        | .fail => "fail"
+        | .diverged => "diverged"
+      -- only live bindings are dumped (deleted paths are filtered by `get`)
+      cls ++ " " ++ encFS (zeroTimes fs')
+    | _, _, _ => "not-utf8"
+  | _ => "bad-op"
+
 def handle (line : String) : String :=
   match (line.trimAscii.toString.splitOn " ") with
   | "paths" :: fn :: rest =>
@@ -485,6 +511,7 @@ def handle (line : String) : String :=
   | "remote" :: rest => handleRemote rest
   | "pack" :: rest => handlePack rest
   | "bundle" :: rest => handleBundle rest
+  | "sanitise" :: rest => handleSanitise rest
   | "ignore" :: rest =>
     match rest.mapM decStr with
     | none => "not-utf8"
